@@ -386,13 +386,13 @@ def main(tier):
     rep.trusted = ['clang IR + sroa', 'tools/llir.py dominators/dependencies', 'tools/intervals.py (sound interval transfer functions, full range on anything not modelled)', 'ASMFLOW taint domain']
     mod = llir.library('default')
     S = c19.summaries(mod)
-    check_distguard_c(rep, mod)
+    rep.attempt(check_distguard_c, rep, mod)
     for c in CONFIGS:
         check_mask_range(rep, c)
-    check_dict(rep, mod, S)
-    check_mask_fresh(rep, mod, S)
-    check_dict_tail(rep, mod)
-    check_hash_clear(rep, mod)
+    rep.attempt(check_dict, rep, mod, S)
+    rep.attempt(check_mask_fresh, rep, mod, S)
+    rep.attempt(check_dict_tail, rep, mod)
+    rep.attempt(check_hash_clear, rep, mod)
     try:
         import c17_asm
         c17_asm.check(rep)
